@@ -11,9 +11,11 @@ calls) to a fresh client with configuration `cfg`; `.2` is everything the client
 (`link = .clear` means: written to a connected socket that is not encrypted, i.e. readable on the wire) and signals.
 `o.clearOk` says: if `o` went over the wire in clear, it is a stream open, `<starttls/>` or a stream close.
 
-Open defect: the guard of fa0779c is bypassed by elements outside jabber:client (`C04_defect_foreign_namespace_iq_answered_in_clear`).
-
-History.  Before the repository fixes e0bbad9 ("legacy authentication sends credentials in clear although TLS is required")
+History.  The guard of fa0779c looked at jabber:client elements only: an `<iq xmlns='urn:foo'>` carrying a jabber:iq:version
+query, or a stream-management `<r/>` after a redirect, was answered in clear; the main theorem then needed the hypothesis
+`noEarlyBypass` and `C04_defect_foreign_namespace_iq_answered_in_clear` proved it necessary.  Repaired by 0b10c27 (before
+encryption only stream features and stream errors are processed); the witness is kept below with what it produces now.
+Before the repository fixes e0bbad9 ("legacy authentication sends credentials in clear although TLS is required")
 and fa0779c ("stanzas received before STARTTLS are processed and answered in clear although TLS is required") the statement
 needed two more hypotheses (every header carries a version; no IQ request before encryption) and two defect theorems proved
 that it was false without them; the two witness scripts are kept below (and first in the harness corpus) with what they
@@ -21,44 +23,60 @@ produce now.
 -/
 namespace Qx.C04
 
-/-- **The property, as far as it holds on today's tree (`…_partial`).**  TLS required.  For every script of any length — headers
-with or without version or id, any features, any sequence of authentication / bind / stream-management answers, jabber:client IQ
-requests, messages, presences, elements in foreign / empty / jabber:server namespaces, whitespace keep-alives, partial elements,
-stream errors, redirects, closes, connection losses — everything the client ever writes to an unencrypted wire is a stream open,
-`<starttls/>` or a stream close, PROVIDED (`noEarlyBypass`, named hypothesis) that while the link is connected and unencrypted the
-server sends neither an IQ request outside jabber:client that an extension answers nor a stream-management `<r/>`.
+/-- **The property.**  TLS required.  For every script of any length — headers with or without version or id, any features,
+any sequence of authentication / bind / stream-management answers, jabber:client IQ requests, messages, presences, stanza-shaped
+elements in foreign / empty / jabber:server namespaces, `<r/>`, `<a/>`, whitespace keep-alives, partial elements, stream errors
+(with or without the closing tag in the same read), redirects, closes, connection losses — everything the client ever writes to
+an unencrypted wire is a stream open, `<starttls/>` or a stream close.  No hypothesis about the server.
 `appWaits` is the application-side scope of the property (it quantifies over servers): the application itself does not send
-requests over an unencrypted link and calls `connectToServer` only while disconnected.
-Full statement (FALSE today, see `C04_defect_foreign_namespace_iq_answered_in_clear`): the same without `noEarlyBypass`. -/
-theorem tls_required_no_secret_before_encrypted_partial (cfg : Cfg) (hreq : cfg.tls = .required) (script : List Ev)
-    (hby : Along noEarlyBypass (init cfg) script) (happ : Along appWaits (init cfg) script) :
+requests over an unencrypted link and calls `connectToServer` only while disconnected. -/
+theorem tls_required_no_secret_before_encrypted (cfg : Cfg) (hreq : cfg.tls = .required) (script : List Ev)
+    (happ : Along appWaits (init cfg) script) :
     ∀ o ∈ (run (init cfg) script).2, o.clearOk :=
-  run_safe script (init cfg) hreq (init_inv cfg) hby happ
+  run_safe script (init cfg) hreq (init_inv cfg) happ
 
 /-- In the words of the property (same hypotheses): nothing that carries the password, a digest of it or the token is ever
 written to an unencrypted wire. -/
-theorem no_secret_in_clear_partial (cfg : Cfg) (hreq : cfg.tls = .required) (script : List Ev)
-    (hby : Along noEarlyBypass (init cfg) script) (happ : Along appWaits (init cfg) script) :
+theorem no_secret_in_clear (cfg : Cfg) (hreq : cfg.tls = .required) (script : List Ev)
+    (happ : Along appWaits (init cfg) script) :
     ∀ k, Out.sent k .clear ∈ (run (init cfg) script).2 → k.carriesSecret = false := by
   intro k hk
-  have h := tls_required_no_secret_before_encrypted_partial cfg hreq script hby happ _ hk
+  have h := tls_required_no_secret_before_encrypted cfg hreq script happ _ hk
   cases k <;> simp_all [Out.clearOk, Kind.preTlsOk, Kind.carriesSecret]
 
-/-- witness: right after the header, an `<iq type='get'>` carrying a jabber:iq:version query whose OWN namespace is not
-jabber:client (e.g. `<iq xmlns='urn:foo' …>`) -/
+/-- former witness (c): right after the header, an `<iq type='get'>` carrying a jabber:iq:version query whose OWN namespace is
+not jabber:client (e.g. `<iq xmlns='urn:foo' …>`) -/
 def witnessForeignIq : List Ev :=
   [.connectToServer, .socketConnected, .recv (.header true true), .recv (.xiq .getKnown)]
 
-/-- **Defect: the stanza guard of fa0779c only looks at jabber:client.**  Even with a passive application the property fails:
-`witnessForeignIq` makes the version extension answer (software name, version, operating system) over the unencrypted link,
-because the guard tests `namespaceURI() == jabber:client` while the extensions and the IQ manager match on tag names only. -/
-theorem C04_defect_foreign_namespace_iq_answered_in_clear :
-    ¬ (∀ (cfg : Cfg) (script : List Ev), cfg.tls = .required → Along appWaits (init cfg) script →
-        ∀ o ∈ (run (init cfg) script).2, o.clearOk) := by
-  intro h
-  have hw := h { tls := .required } witnessForeignIq rfl ⟨rfl, trivial, trivial, trivial, trivial⟩
-    (.sent (.iqReply false) .clear) (by decide)
-  simp [Out.clearOk, Kind.preTlsOk] at hw
+/-- what (c) does now: no answer; error, stream close, disconnected -/
+example : (run (init { tls := .required }) witnessForeignIq).2 =
+    [.sent .streamOpen .clear, .sig .error, .sent .streamClose .clear, .sig .disconnected] := by decide
+
+/-- **Before encryption nothing but stream features and stream errors is processed** (TLS required; any reachable idle state on
+a connected, unencrypted link): every other element — whatever its shape or namespace — is rejected: error, stream close,
+disconnected, no session, no other send. -/
+theorem pre_tls_element_is_rejected (cfg : Cfg) (hreq : cfg.tls = .required) (script : List Ev) (e : El)
+    (hc : (run (init cfg) script).1.conn = .connected) (hh : (run (init cfg) script).1.headerSeen = true)
+    (hw : (run (init cfg) script).1.wedged = false) (hl : (run (init cfg) script).1.listener = .idle)
+    (he : (run (init cfg) script).1.encrypted = false)
+    (hne : e.isStreamLevel = false) (hnh : ∀ v i, e ≠ .header v i) :
+    (step (run (init cfg) script).1 (.recv e)).1.conn = .disconnected ∧
+    (step (run (init cfg) script).1 (.recv e)).1.sessionStarted = false ∧
+    (∀ k l, Out.sent k l ∈ (step (run (init cfg) script).1 (.recv e)).2 → k = .streamClose) ∧
+    .sig .disconnected ∈ (step (run (init cfg) script).1 (.recv e)).2 := by
+  have hred : (run (init cfg) script).1.redirect = false := run_red script (init cfg) rfl
+  have hcfg : (run (init cfg) script).1.cfg.tls = .required := by rw [run_cfg]; exact hreq
+  generalize (run (init cfg) script).1 = s at *
+  cases e <;>
+    first
+    | (exfalso; exact hnh _ _ rfl)
+    | (simp [El.isStreamLevel] at hne; done)
+    | (simp [step, recv, hc, hw, hh, dispatch, hl, idleHandle, idleGuarded, St.preTls, he, hcfg, El.isStreamLevel, reject,
+        disconnectFromHost, socketClose, onSocketDisconnected, hred, closeSession, send, iqDones]; done)
+    | (rename_i k; cases k <;>
+        simp [step, recv, hc, hw, hh, dispatch, hl, idleHandle, idleGuarded, St.preTls, he, hcfg, El.isStreamLevel, reject,
+          disconnectFromHost, socketClose, onSocketDisconnected, hred, closeSession, send, iqDones])
 
 /-- **If STARTTLS is refused the client gives up.**  TLS required; in any reachable state where the client has sent
 `<starttls/>` and waits for the answer on a connected, unencrypted link: `<failure/>` (or anything but `<proceed/>`) makes it
@@ -111,16 +129,16 @@ theorem app_send_leaks_exactly_on_a_clear_link (s : St) :
 
 /-- **An application that sends only while `isConnected()` is safe, for every server.**  TLS required; the application sends
 requests only while `isConnected()` is true and calls `connectToServer` only while disconnected (`appUsesSession`, the documented
-way to use the client) and the server does not use the bypass of `noEarlyBypass`.  Then for every script nothing but stream open / `<starttls/>` / stream close ever goes over an
+way to use the client).  Then for every script nothing but stream open / `<starttls/>` / stream close ever goes over an
 unencrypted wire, and whenever `isConnected()` is true the link is encrypted (a session is never established, nor kept, on an
 unencrypted link when TLS is required). -/
 theorem app_that_waits_for_session_is_safe (cfg : Cfg) (hreq : cfg.tls = .required) (script : List Ev)
-    (hby : Along noEarlyBypass (init cfg) script) (happ : Along Qx.C10.appUsesSession (init cfg) script) :
+    (happ : Along Qx.C10.appUsesSession (init cfg) script) :
     (∀ o ∈ (run (init cfg) script).2, o.clearOk) ∧
     (isConnected (run (init cfg) script).1 = true → (run (init cfg) script).1.encrypted = true) := by
   have hg0 : Qx.C10.GInv (init cfg) :=
     ⟨init_inv cfg, (by intro h; simp [init] at h), fun h => absurd (nc_of_not_connected (by simp [init])) h⟩
-  have h := Qx.C10.run_ginv script (init cfg) hreq hg0 hby happ
+  have h := Qx.C10.run_ginv script (init cfg) hreq hg0 happ
   refine ⟨h.1, fun hi => ?_⟩
   simp [isConnected] at hi
   by_cases hnc : NC (run (init cfg) script).1
@@ -148,7 +166,7 @@ theorem versionless_header_gives_up (cfg : Cfg) (hreq : cfg.tls = .required) (hn
 theorem iq_request_before_tls_is_rejected (cfg : Cfg) (hreq : cfg.tls = .required) :
     (run (init cfg) witnessIqRequest).2 =
       [.sent .streamOpen .clear, .sig .error, .sent .streamClose .clear, .sig .disconnected] := by
-  simp [witnessIqRequest, run, step, init, recv, handleStart, handleStream, hreq, dispatch, idleHandle, idleGuarded, El.isStanza, reject,
+  simp [witnessIqRequest, run, step, init, recv, handleStart, handleStream, hreq, dispatch, idleHandle, idleGuarded, El.isStreamLevel, St.preTls, reject,
     disconnectFromHost, socketClose, onSocketDisconnected, closeSession, send, link, iqDones]
 
 /-- **If encryption cannot be negotiated the client gives up and disconnects.**  TLS required; after ANY script that leaves
